@@ -41,7 +41,7 @@ TRIPLES = [
 
 
 def bounds(tier):
-    return dict(triples=tier_pick(tier, 4, 8), inserts_max=2, slack=1)
+    return dict(triples=tier_pick(tier, 5, 8), inserts_max=2, slack=1)
 
 
 def ob_level(ctx):
@@ -178,13 +178,13 @@ def obligations(tier, seed):
 
     st = loader.real_stack()
     obs = []
-    trip = TRIPLES[:4] if tier == "quick" else TRIPLES
+    trip = TRIPLES[:5] if tier == "quick" else TRIPLES
     for kit, vname, nname, kind in trip:
         F = fixed_letters(kit_class(st, kit, vname).structure())
         for c in (1, 2):
             if kind == "ytkproduct" and c == 2:
                 continue
-            if tier == "quick" and c == 2 and F > 40:
+            if tier == "quick" and c == 2 and (F > 40 or vname == "CIDARCassetteVector"):
                 continue
             obs.append(Ob("%s.%s + %d insert(s) -> %s" % (kit, vname, c, nname), ob_level,
                           dict(kit=kit, vector=vname, next=nname, kind=kind, n=F + 1, inserts=c), samples=3,
